@@ -142,7 +142,8 @@ theorem applyMatcher_kept (a : MatcherArgs) (t : Option TokObj) (toks : TokFn) (
     (c l r : Frame) (hv : validateMatcher a t = .ok (c, l, r))
     (hl : ∀ cr ∈ c.rows, cr.cell (c.colIdx a.candLKey) ∈ l.col a.lKey)
     (hr : ∀ cr ∈ c.rows, cr.cell (c.colIdx a.candRKey) ∈ r.col a.rKey)
-    (hlen : c.rows.length < 2 ^ 40) :
+    (hlen : c.rows.length < 2 ^ 40)
+    (hstr : t.isSome → Props.StrColumn l a.lAttr ∧ Props.StrColumn r a.rAttr) :
     ∃ fr kept, applyMatcher a t toks sim cpu = .ok fr ∧
       fr.columns = (if c.rows.isEmpty then c.columns else matcherHeader a) ∧
       kept.Sublist c.rows ∧
@@ -150,7 +151,7 @@ theorem applyMatcher_kept (a : MatcherArgs) (t : Option TokObj) (toks : TokFn) (
           ls.cell (l.colIdx a.lKey) = cr.cell (c.colIdx a.candLKey) ∧
           rs.cell (r.colIdx a.rKey) = cr.cell (c.colIdx a.candRKey) ∧
           row = matcherOutRow a l r (cr.cell 0) ls rs s) kept fr.rows := by
-  obtain ⟨fr, hfr, hcols, hrows⟩ := applyMatcher_rows' a t toks sim cpu c l r hv hl hr hlen
+  obtain ⟨fr, hfr, hcols, hrows⟩ := applyMatcher_rows' a t toks sim cpu c l r hv hl hr hlen hstr
   have hV := (validateMatcher_ok_iff a t c l r).1 hv
   obtain ⟨kept, hs, hf⟩ := filterMap_kept (matcherTableSpec a t toks sim c l r) c.rows
   refine ⟨fr, kept, hfr, hcols, hs, ?_⟩
@@ -163,10 +164,16 @@ end SSJ
 namespace SSJ.EntryLaws
 open SSJ
 
-/-- acceptance of an overlap threshold is exactly Python's `not (threshold <= 0)` -/
+/-- acceptance of an overlap threshold is exactly Python's `threshold > 0` (the repaired test `if not threshold > 0`:
+    a value for which the comparison is not true — in particular a non-number — is rejected) -/
 theorem overlapThr_valid_iff (v : PyV) :
-    Gen.validate_threshold v (.str "OVERLAP") ≠ .err .assertion ↔ PyV.leb v (.int 0) = false := by
-  cases h : PyV.leb v (.int 0) <;> simp [Gen.validate_threshold, PyV.eqb, h]
+    Gen.validate_threshold v (.str "OVERLAP") ≠ .err .assertion ↔ PyV.gtb v (.int 0) = true :=
+  Gen.validate_threshold_overlap_iff v
+
+/-- `v > 0` holds iff `v` is a positive finite number (int, float, `True`) or `inf` -/
+theorem gtb_zero_iff (v : PyV) :
+    PyV.gtb v (.int 0) = true ↔ (∃ x : Rat, PyV.numVal? v = some (some x) ∧ 0 < x) ∨ v = .inf := by
+  cases v <;> simp [PyV.gtb, PyV.ltb, PyV.numVal?]
 
 /-- `n >= v` for an int `n` holds iff `v` is a finite number not above `n` -/
 theorem geb_int_iff (n : Int) (v : PyV) :
@@ -206,16 +213,18 @@ theorem ge_mono_any (op : String) (hop : op = ">=" ∨ op = ">") (n : Int) (v₁
 theorem overlapThr_valid_mono (v₁ v₂ : PyV) (h12 : PyV.leb v₁ v₂ = true)
     (h : Gen.validate_threshold v₁ (.str "OVERLAP") ≠ .err .assertion) :
     Gen.validate_threshold v₂ (.str "OVERLAP") ≠ .err .assertion := by
-  rw [overlapThr_valid_iff] at h ⊢
-  by_contra hc
-  rw [Bool.not_eq_false] at hc
-  have hc' : PyV.geb (.int 0) v₂ = true := hc
-  rw [geb_int_iff] at hc'
-  obtain ⟨x₂, e₂, hx⟩ := hc'
-  obtain ⟨x₁, e₁, hx₁⟩ := leb_finite_right v₁ v₂ x₂ e₂ h12
-  have h1 : PyV.geb (.int 0) v₁ = true := (geb_int_iff 0 v₁).2 ⟨x₁, e₁, hx₁.trans hx⟩
-  have h2 : PyV.leb v₁ (.int 0) = true := h1
-  rw [h] at h2; cases h2
+  rw [overlapThr_valid_iff, gtb_zero_iff] at h ⊢
+  rcases h with ⟨x₁, e₁, hx₁⟩ | rfl
+  · cases hv₂ : PyV.numVal? v₂ with
+    | none => cases v₁ <;> cases v₂ <;> simp_all [PyV.leb, PyV.numVal?]
+    | some o =>
+      cases o with
+      | none => right; cases v₂ <;> simp_all [PyV.numVal?]
+      | some x₂ =>
+        left
+        exact ⟨x₂, rfl, lt_of_lt_of_le hx₁ ((leb_num v₁ v₂ x₁ x₂ e₁ hv₂).1 h12)⟩
+  · right
+    cases v₂ <;> simp_all [PyV.leb, PyV.numVal?]
 
 /-- a valid OverlapFilter stays valid under a larger overlap size of any numeric type -/
 theorem mkOverlapFilter_withThr (v₁ v₂ : PyV) (h12 : PyV.leb v₁ v₂ = true) (op : String) (am : Bool) (t : TokObj)
